@@ -363,14 +363,16 @@ func (db *RockDB) ltrim2(ts int64, key []byte, startP, stopP int64) error {
 	if stop < 0 {
 		stop = llen + stop
 	}
+	// clamp before testing for the empty range (as redis does): with start and stop both
+	// below -llen the range is empty, not [0, stop]
+	if start < 0 {
+		start = 0
+	}
 	newLen := int64(0)
 	// whole list deleted
 	if start >= llen || start > stop {
 		db.lDelete(ts, key, db.wb)
 	} else {
-		if start < 0 {
-			start = 0
-		}
 		if stop >= llen {
 			stop = llen - 1
 		}
